@@ -63,3 +63,14 @@ def run_ref_machine(chk, mc=True, procs=8, num=6, depth=8, thorough=False):
             f.result()
         ex.shutdown()
     return join
+
+
+def run_mech_behaviours(chk, num=400, procs=4, depth=10):
+    """Behaviours of the mechanism model with every copy discipline on (spec/MechSim.tla, `tlc -simulate`) replayed on the
+    real classes and judged against the reference semantics (queued)."""
+    from harness import tlc
+    r = tlc.simulate_par('MechSim.tla', 'MC_MechSim.cfg', chk.wd, procs, num, depth + 4, chk.seed + 31)
+    chk.mc_runs.append({'module': 'MechSim.tla', 'cfg': 'MC_MechSim.cfg', 'mode': f'simulate x{procs} num={num} depth={depth}',
+                        'states': r['states'], 'behaviours': len(r['hists']), 'wall_s': round(r['wall'], 2)})
+    chk.states += r['states']
+    chk.queue(edges.programs_from_mech_histories(r['hists']), 'tlc-simulated-mechanism-behaviours')
